@@ -7,6 +7,7 @@ import (
 	"fmt"
 	"os"
 	"path/filepath"
+	"regexp"
 	"sort"
 	"strings"
 	"testing"
@@ -405,12 +406,21 @@ func TestC03(t *testing.T) {
 		// at an unused declaration and code generation is reached)
 		nshape := 0
 		stop := false
+		var early []c03Early // sources compiled early in the run, with their verdicts
 		c03Shapes(vstat.Thorough(), func(kind, src string) bool {
 			nshape++
 			if nshape%shards != shard {
 				return true
 			}
 			c := c03Case{Src: vstat.Q(src), NoDet: nshape%8 != 0}
+			defer func() {
+				if len(early) < 400 && (nshape%37 == 0 || kind == "strptime-layout-twins" || kind == "capture-group-names" && nshape%5 == 0) {
+					early = append(early, c03Early{src, c03Verdict(src)})
+				}
+			}()
+			if kind == "strptime-layout-twins" {
+				c.NoDet, c.Reps = false, 2
+			}
 			if kind == "capture-group-names" {
 				// name resolution walks symbol tables: compile several times
 				c.NoDet, c.Reps = false, 8
@@ -515,7 +525,41 @@ func TestC03(t *testing.T) {
 			st.Report(rt, f, c)
 		})
 		_ = sample
+		// the compiler keeps nothing between compilations: a source compiled early
+		// in this process gives the same result now, thousands of compilations later
+		for _, e := range early {
+			if now := c03Verdict(e.src); now != e.verdict {
+				c := c03Case{Src: vstat.Q(e.src)}
+				st.Violate(t, vstat.Failf("result-depends-on-earlier-compilations", "the same source compiled differently early and late in one process:\nearly: %.300s\nlate:  %.300s", e.verdict, now), c, "late-recheck")
+				return
+			}
+		}
+		st.Extra("late_rechecks", len(early))
 	})
+}
+
+type c03Early struct{ src, verdict string }
+
+var c03Addr = regexp.MustCompile(`0x[0-9a-f]+`)
+
+// c03Verdict compiles src once and renders the outcome (the object, or the
+// sorted error lines).
+func c03Verdict(src string) string {
+	o, done := compileWithDeadline(src, 120*time.Second)
+	switch {
+	case !done:
+		return "does not terminate"
+	case o.panic != nil:
+		return fmt.Sprintf("panic: %v", o.panic)
+	case o.obj != nil:
+		return "accepted\n" + dumpObject(o.obj)
+	case o.err != nil:
+		// internal-error texts print node addresses
+		ls := strings.Split(c03Addr.ReplaceAllString(o.err.Error(), "0x?"), "\n")
+		sort.Strings(ls)
+		return "rejected\n" + strings.Join(ls, "\n")
+	}
+	return "neither"
 }
 
 // c03Forms are operand forms of every syntactic and type class.
@@ -603,6 +647,18 @@ func c03Shapes(thorough bool, emit func(kind, src string) bool) {
 			}
 			if k == n {
 				break
+			}
+		}
+	}
+	// strptime layouts in pairs that differ only in characters the checker
+	// strips before it tries the layout out ('_' and 'Z'): one of each pair is
+	// invalid, and whether it is reported must not depend on the other one
+	twins := [][2]string{{"2006_01_02", "20060102"}, {"15_04_05", "150405"}, {"2006-01-02T15:04:05Z", "2006-01-02T15:04:05+"}, {"Jan _2 15:04:05", "Jan 2 15:04:05"}, {"_2/01/2006", "2/01/2006"}, {"02_01", "0201"}}
+	for _, tw := range twins {
+		for _, order := range [][2]string{{tw[0], tw[1]}, {tw[1], tw[0]}, {tw[0], tw[0]}, {tw[1], tw[1]}} {
+			src := "gauge g\n/^(\\S+) (\\S+)$/ {\n  strptime($1, \"" + order[0] + "\")\n  strptime($2, \"" + order[1] + "\")\n  g = timestamp()\n}\n"
+			if !emit("strptime-layout-twins", src) {
+				return
 			}
 		}
 	}
